@@ -107,3 +107,60 @@ Definition ev_agrees (c : ev_case) : bool :=
 Fixpoint idxe {A} (bad : A -> bool) (i : N) (l : list A) : list N :=
   match l with [] => [] | x :: r => if bad x then i :: idxe bad (i + 1) r else idxe bad (i + 1) r end.
 Definition ev_mismatches (cs : list ev_case) : list N := idxe (fun c => negb (ev_agrees c)) 0 cs.
+
+(* ---- the collection of evidence (bft/evidence.go AddDSE, DoubleSignEvidences): a piece is kept when it is valid on its own,
+   accuses somebody who may still be slashed, and is not IDENTICAL to a piece already kept - identical meaning the whole
+   evidence (views, payloads, aggregate signatures, signer bitmaps), not only what the two certificates say.  Two pieces about
+   the same pair of payloads under different signer sets accuse different validators: both stay. *)
+Fixpoint nlist_eqb (x y : list N) : bool :=
+  match x, y with [], [] => true | u :: x', v :: y' => (u =? v) && nlist_eqb x' y' | _, _ => false end.
+Definition qc_same (a b : qc) : bool :=
+  view_eqb3 (q_view a) (q_view b) && payload_eqb a b && nlist_eqb (q_signers a) (q_signers b) && Bool.eqb (q_sigok a) (q_sigok b).
+Definition ev_same (e f : qc * qc) : bool := qc_same (fst e) (fst f) && qc_same (snd e) (snd f).
+Definition accuses_somebody (c : conf) (min_height : N) (valid : N -> N -> bool) (e : qc * qc) : bool :=
+  match process_dse c min_height valid [e] [] with Some (_ :: _) => true | _ => false end.
+Definition add_dse (c : conf) (min_height : N) (valid : N -> N -> bool) (acc : list (qc * qc)) (e : qc * qc) : list (qc * qc) :=
+  if accuses_somebody c min_height valid e then (if existsb (ev_same e) acc then acc else acc ++ [e]) else acc.
+Definition collect (c : conf) (min_height : N) (valid : N -> N -> bool) (es : list (qc * qc)) : list (qc * qc) :=
+  fold_left (add_dse c min_height valid) es [].
+(* what a collection reports: does the derived list name validator k for height h *)
+Definition names (l : list (N * list N)) (k h : N) : bool := existsb (fun d => (fst d =? k) && existsb (N.eqb h) (snd d)) l.
+
+(* the de-duplication some refactoring might prefer - by what the two certificates SAY (view, payload), ignoring who signed -
+   kept as a variant: it loses accused validators (Evidence proofs: old variant refuted) *)
+Definition ev_same_content (e f : qc * qc) : bool :=
+  view_eqb3 (q_view (fst e)) (q_view (fst f)) && payload_eqb (fst e) (fst f) &&
+  view_eqb3 (q_view (snd e)) (q_view (snd f)) && payload_eqb (snd e) (snd f).
+Definition add_dse_by_content c min_height valid (acc : list (qc * qc)) (e : qc * qc) : list (qc * qc) :=
+  if accuses_somebody c min_height valid e then (if existsb (ev_same_content e) acc then acc else acc ++ [e]) else acc.
+Definition collect_by_content c min_height valid (es : list (qc * qc)) : list (qc * qc) :=
+  fold_left (add_dse_by_content c min_height valid) es [].
+
+(* correspondence cases: pieces offered one by one to the real AddDSE on one collection; observed: how many were kept and what the
+   real ProcessDSE derives from the collection *)
+Record col_case := mkCol { cl_powers : list N; cl_min : N; cl_evidence : list (qc * qc); cl_invalid : list (N * N);
+                           cl_kept : N; cl_obs : option (list (N * list N)) }.
+Definition col_valid (c : col_case) : N -> N -> bool :=
+  fun k h => negb (existsb (fun e => (fst e =? k) && (snd e =? h)) (cl_invalid c)).
+Definition col_agrees (c : col_case) : bool :=
+  let cf := mkConf 0 (cl_powers c) 0 in
+  let kept := collect cf (cl_min c) (col_valid c) (cl_evidence c) in
+  (N.of_nat (length kept) =? cl_kept c) &&
+  match process_dse cf (cl_min c) (col_valid c) kept [], cl_obs c with
+  | Some l, Some l' => dsl_eqb l l'
+  | None, None => true
+  | _, _ => false
+  end.
+(* the property on the observation alone: whoever any single offered piece accuses is named by the collection's report *)
+Definition col_ok (c : col_case) : bool :=
+  let cf := mkConf 0 (cl_powers c) 0 in
+  match cl_obs c with
+  | None => false
+  | Some rep =>
+    forallb (fun e => match process_dse cf (cl_min c) (col_valid c) [e] [] with
+                      | Some l => forallb (fun d => forallb (fun h => names rep (fst d) h) (snd d)) l
+                      | None => true
+                      end) (cl_evidence c)
+  end.
+Definition col_mismatches (cs : list col_case) : list N := idxe (fun c => negb (col_agrees c)) 0 cs.
+Definition col_violations (cs : list col_case) : list N := idxe (fun c => negb (col_ok c)) 0 cs.
